@@ -453,6 +453,13 @@ func c14Strata() []*gast.Grammar {
 	r := func(n string, e *gast.Expr) *gast.Rule { return &gast.Rule{Name: n, Expr: e} }
 	act := func(e *gast.Expr, id int) *gast.Expr { return gast.A(e, id, mon.Spec{}) }
 	return []*gast.Grammar{
+		// two mutually recursive rules, each guarded by an operator for the same label: a throw
+		// directly inside the re-entered outer operator belongs to that operator, not to the one
+		// entered in between
+		mk(r("S", gast.S(gast.Lab("v", gast.Ref("A")), gast.Star(gast.Dot()))),
+			r("A", gast.Rec(act(gast.S(gast.L("["), gast.Lab("x", gast.Ref("B")), gast.Lab("d", gast.Ref("Close"))), 1), act(gast.Dot(), 2), "L1")),
+			r("B", gast.Rec(gast.C(act(gast.S(gast.L("<"), gast.Lab("x", gast.Ref("A")), gast.L(">")), 3), act(gast.Cl(gast.Chars("ab")), 4)), act(gast.Dot(), 5), "L1")),
+			r("Close", gast.C(act(gast.L("]"), 6), gast.Thr("L1")))),
 		// innermost first, fall-through to the outer handler when the inner recovery fails
 		mk(r("S", gast.Rec(gast.Rec(gast.S(gast.L("a"), gast.Ref("T")), act(gast.L("x"), 1), "L1"), act(gast.Dot(), 2), "L1")),
 			r("T", gast.C(gast.L("b"), gast.Thr("L1")))),
